@@ -41,8 +41,53 @@ func (g *gen) next(i int) input {
 		return g.recvInput()
 	case 5, 6:
 		return g.dgramInput()
+	case 9:
+		if (i/10)%5 == 0 {
+			return g.burstInput()
+		}
+		return g.httpInput()
 	default:
 		return g.httpInput()
+	}
+}
+
+// parserConfig draws what an operator can set on the parser: bad-lines-per-minute (0 = default:
+// bad lines are never logged; otherwise the first bad line, then at that rate), log-raw-metric,
+// ignore-host.
+func (g *gen) parserConfig(in *input) {
+	r := g.r
+	in.BadLPM = hlib.Pick(r, []float64{0, 0, 0, 1, 600, 1e9, 1e9, 1e9})
+	in.LogRaw = r.Chance(1, 4)
+	in.IgnoreHost = r.Chance(1, 3)
+}
+
+// utf8Line: bad lines made of UTF-8 fragments around the sizes at which log lines get truncated:
+// long runs of continuation bytes (0x80-0xBF), lone lead bytes at the cut, sequences straddling it.
+func (g *gen) utf8Line() string {
+	r := g.r
+	n := hlib.Pick(r, []int{254, 255, 256, 257, 258, 259, 260, 300, 511, 512, 513, 1024, 4096, r.Range(1, 600)})
+	cont := func(k int) string { return fill(r, k, "\x80\x81\x8f\x90\xa9\xbf") }
+	switch r.Intn(8) {
+	case 0, 1: // continuation bytes only
+		return cont(n)
+	case 2: // one lead byte somewhere near a power-of-two boundary, continuation bytes around it
+		p := hlib.Pick(r, []int{0, 1, 2, 253, 254, 255, 256, 257})
+		if p >= n {
+			p = n - 1
+		}
+		return cont(p) + hlib.Pick(r, []string{"\xc3", "\xe2", "\xf0", "\xff", "\xc0"}) + cont(n-p-1)
+	case 3: // valid multi-byte characters back to back, shifted by 0-3 bytes
+		unit := hlib.Pick(r, []string{"\xc3\xa9", "\xe2\x82\xac", "\xf0\x9f\x98\x80"})
+		s := fill(r, r.Intn(4), "ab") + strings.Repeat(unit, n/len(unit)+1)
+		return s[:n]
+	case 4: // a key separator first, then the run (bad: no value separator)
+		return "a:" + cont(n)
+	case 5: // ASCII up to the cut, run behind it
+		return fill(r, hlib.Pick(r, []int{250, 255, 256, 257}), "abc") + cont(n)
+	case 6: // a valid metric with a tag made of continuation bytes (accepted, not a bad line)
+		return "a:1|c|#" + cont(n)
+	default: // event header declaring a long title of continuation bytes, too short
+		return fmt.Sprintf("_e{%d,1}:%s", n+5, cont(n))
 	}
 }
 
@@ -64,7 +109,11 @@ func (g *gen) lexInput() input {
 	case 5, 6:
 		line, class = g.nulLine(), "nul-sweep"
 	case 7:
-		line, class = g.longLine()
+		if r.Chance(1, 3) {
+			line, class = g.utf8Line(), "utf8-run"
+		} else {
+			line, class = g.longLine()
+		}
 	default:
 		line, class = lexgen.Mutate(r, g.gridLine(), true), "grid-mutated"
 	}
@@ -237,6 +286,8 @@ func (g *gen) dgramLine() string {
 		return lexgen.MetricLine(r)
 	case k < 9:
 		return lexgen.EventLine(r, true)
+	case k < 10:
+		return g.utf8Line()
 	case k < 13:
 		l, _ := lexgen.Line(r, "hostile")
 		return l
@@ -304,7 +355,8 @@ func (g *gen) dgramInput() input {
 	if len(dg) > g.maxLen {
 		dg = dg[:g.maxLen]
 	}
-	in := input{Kind: "dgram", Class: class, NS: hlib.Pick(r, namespaces), Data: flat(dg), LogBad: r.Chance(1, 3), IgnoreHost: r.Chance(1, 3)}
+	in := input{Kind: "dgram", Class: class, NS: hlib.Pick(r, namespaces), Data: flat(dg)}
+	g.parserConfig(&in)
 	if r.Chance(1, 3) && len(dg) > 0 {
 		// the same bytes arriving as 2-4 datagrams (cut anywhere, also inside a line)
 		n := r.Range(1, 3)
@@ -374,9 +426,9 @@ func (g *gen) recvInput() input {
 		}
 	}
 	in := input{Kind: "recv", Class: "recv", NS: hlib.Pick(r, namespaces), Data: lists(msgs),
-		LogBad: r.Chance(1, 4), IgnoreHost: r.Chance(1, 3),
 		Sock:    hlib.Pick(r, []string{"udp", "udp", "udp", "unixgram", "script", "script"}),
 		Readers: hlib.Pick(r, []int{1, 1, 2, 4}), RBatch: hlib.Pick(r, []int{1, 2, 5, 10, 50, r.Range(1, 50)}), Parsers: hlib.Pick(r, []int{1, 1, 2})}
+	g.parserConfig(&in)
 	if in.Sock == "udp" {
 		in.ConnPerReader = r.Chance(1, 3)
 	}
@@ -483,6 +535,38 @@ func compress(codec string, b []byte) []byte {
 		return b
 	}
 	return out.Bytes()
+}
+
+// burstInput: 1-12 request templates sent by 2-16 goroutines at once, 8-250 requests each.
+// Encodings: mostly what the single-request stream draws, plus unknown encodings that are
+// identical for every copy, or distinct for every copy (a fresh header value per request).
+func (g *gen) burstInput() input {
+	r := g.r
+	n := r.Range(1, 12)
+	bodies := make([]string, n)
+	in := input{Kind: "burst", Class: "burst"}
+	mode := hlib.Pick(r, []string{"mixed", "mixed", "unknown-distinct", "unknown-same", "valid"})
+	for i := 0; i < n; i++ {
+		h := g.httpInput()
+		b := h.Data.str()
+		if len(b) > 400 && r.Chance(2, 3) {
+			b = b[:400]
+		}
+		bodies[i] = b
+		m := reqMeta{Ep: h.Ep, Enc: h.Enc, NoEnc: h.NoEnc}
+		switch {
+		case mode == "unknown-distinct" || mode == "mixed" && r.Chance(1, 3):
+			m.Enc, m.NoEnc, m.Distinct = hlib.Pick(r, []string{"x-enc", "gzip", "deflate", "lz4", "identity", "zz"}), false, true // suffixed: never a known one
+		case mode == "unknown-same" || mode == "mixed" && r.Chance(1, 4):
+			m.Enc, m.NoEnc = hlib.Pick(r, []string{"gzip", "br", "x", "DEFLATE", strings.Repeat("q", 70)}), false
+		}
+		in.Reqs = append(in.Reqs, m)
+	}
+	in.Data = lists(bodies)
+	in.Gor = hlib.Pick(r, []int{2, 2, 3, 4, 8, 16, r.Range(2, 16)})
+	in.Rounds = hlib.Pick(r, []int{8, 30, 100, 100, 250})
+	in.Class = "burst/" + mode
+	return in
 }
 
 func (g *gen) httpInput() input {
